@@ -99,6 +99,12 @@ func TestEscapers(t *testing.T) {
 		if a, b := template.JSEscapeString(s), verifModel_template_JSEscapeString(s); a != b {
 			t.Fatalf("JSEscapeString(%q): %q vs %q", s, a, b)
 		}
+		var b1, b2 bytes.Buffer
+		template.JSEscape(&b1, []byte(s))
+		verifModel_template_JSEscape(&b2, []byte(s))
+		if b1.String() != b2.String() {
+			t.Fatalf("JSEscape(%q): %q vs %q", s, b1.String(), b2.String())
+		}
 		if a, b := url.QueryEscape(s), verifModel_url_QueryEscape(s); a != b {
 			t.Fatalf("QueryEscape(%q): %q vs %q", s, a, b)
 		}
